@@ -19,7 +19,7 @@ func init() {
 		Assumptions: []string{"ids are disjoint from every value pool, so a hit is a trace of the entity", "under CascadeCreateUpdate dangling boss references are declared behaviour and excluded"},
 		Plan: func(tier core.Tier, seed int64) int {
 			if tier == core.Thorough {
-				return 24000
+				return 48000
 			}
 			return 720
 		},
